@@ -1045,8 +1045,160 @@ B("c20-backup-name-without-version", ["C20"], D,
   '''        backup_fn = "%s-backup" % (dbfile,)''',
   "the backup's exact name is not part of the property")
 
+# ---------------------------------------------------------------- benign refactorings
+ALL = ["C01", "C02", "C03", "C04", "C05", "C06", "C07", "C08", "C09", "C10", "C11",
+       "C12", "C13", "C15", "C16", "C17", "C18", "C19", "C20"]
+B("b-cursor-iteration", ALL, S,
+  '''                              (self._app_id, self._mailbox_id)).fetchall():
+            sm = SidedMessage(''',
+  '''                              (self._app_id, self._mailbox_id)):
+            sm = SidedMessage(''')
+B("b-any-generator", ALL, S,
+  '''        if any([sr["opened"] for sr in side_rows]):
+            return''',
+  '''        if any(sr["opened"] for sr in side_rows):
+            return''')
+B("b-claims-len", ALL, S,
+  '''        claims = [1 for sr in side_rows if sr["claimed"]]
+        if claims:
+            return''',
+  '''        claims = [sr for sr in side_rows if sr["claimed"]]
+        if len(claims) > 0:
+            return''')
+B("b-close-delete-order", ALL, S,
+  '''        db.execute("DELETE FROM `messages` WHERE `mailbox_id`=?",
+                   (self._mailbox_id,))
+        db.execute("DELETE FROM `mailbox_sides` WHERE `mailbox_id`=?",
+                   (self._mailbox_id,))
+        db.execute("DELETE FROM `mailboxes` WHERE `id`=?", (self._mailbox_id,))
+        if self._usage_db:
+            self._app._summarize_mailbox_and_store(''',
+  '''        db.execute("DELETE FROM `mailbox_sides` WHERE `mailbox_id`=?",
+                   (self._mailbox_id,))
+        db.execute("DELETE FROM `messages` WHERE `mailbox_id`=?",
+                   (self._mailbox_id,))
+        db.execute("DELETE FROM `mailboxes` WHERE `id`=?", (self._mailbox_id,))
+        if self._usage_db:
+            self._app._summarize_mailbox_and_store(''')
+B("b-extra-logging", ALL, W,
+  '''        self._did_claim = True
+        nameplate_id = msg["nameplate"]''',
+  '''        self._did_claim = True
+        nameplate_id = msg["nameplate"]
+        log.msg("claim of %r by %r" % (nameplate_id, self._side))''')
+B("b-local-side-alias", ALL, W,
+  '''        self._did_release = True
+        self._app.release_nameplate(nameplate_id, self._side, server_rx)''',
+  '''        self._did_release = True
+        side = self._side
+        self._app.release_nameplate(nameplate_id, side, server_rx)''')
+B("b-sql-reflow", ALL, S,
+  '''        row = db.execute("SELECT * FROM `mailbox_sides`"
+                         " WHERE `mailbox_id`=? AND `side`=?",
+                         (self._mailbox_id, side)).fetchone()
+        if not row:
+            return
+        db.execute("UPDATE `mailbox_sides` SET `opened`=?, `mood`=?"''',
+  '''        row = db.execute("select * from mailbox_sides where side=? and mailbox_id=?",
+                         (side, self._mailbox_id)).fetchone()
+        if not row:
+            return
+        db.execute("UPDATE `mailbox_sides` SET `opened`=?, `mood`=?"''')
+B("b-inline-cutoff", ALL, T,
+  '''        old = now - CHANNEL_EXPIRATION_TIME
+        try:
+            server.prune_all_apps(now, old)''',
+  '''        try:
+            server.prune_all_apps(now, now - CHANNEL_EXPIRATION_TIME)''')
+B("b-old-mailboxes-list", ALL, S,
+  '''        new_mailboxes = set()
+        old_mailboxes = set()''',
+  '''        new_mailboxes = set()
+        old_mailboxes = []''', "needs the matching append; see extra")
+B("b-inline-json", ALL, W,
+  '''        payload = dict_to_bytes(kwargs)
+        self.sendMessage(payload, False)''',
+  '''        payload = json.dumps(kwargs).encode("utf-8")
+        self.sendMessage(payload, False)''', "needs import json; see extra")
+B("b-release-inverted-early-return", ALL, S,
+  '''        if not np_row:
+            return
+        npid = np_row["id"]
+        row = db.execute("SELECT * FROM `nameplate_sides`"
+                         " WHERE `nameplates_id`=? AND `side`=?",
+                         (npid, side)).fetchone()
+        if not row:
+            return
+        db.execute("UPDATE `nameplate_sides` SET `claimed`=?"''',
+  '''        if np_row:
+            npid = np_row["id"]
+        else:
+            return
+        row = db.execute("SELECT * FROM `nameplate_sides`"
+                         " WHERE `nameplates_id`=? AND `side`=?",
+                         (npid, side)).fetchone()
+        if row is None:
+            return
+        db.execute("UPDATE `nameplate_sides` SET `claimed`=?"''')
+B("b-touch-helper-alias", ALL, S,
+  '''    def _touch(self, when):
+        self._db.execute("UPDATE `mailboxes` SET `updated`=? WHERE `id`=?",
+                         (when, self._mailbox_id))''',
+  '''    def _touch(self, when):
+        db = self._db
+        mailbox_id = self._mailbox_id
+        db.execute("UPDATE `mailboxes` SET `updated`=? WHERE `id`=?",
+                   (when, mailbox_id))''')
+B("b-close-helper-method", ALL, S,
+  '''        db.execute("DELETE FROM `messages` WHERE `mailbox_id`=?",
+                   (self._mailbox_id,))
+        db.execute("DELETE FROM `mailbox_sides` WHERE `mailbox_id`=?",
+                   (self._mailbox_id,))
+        db.execute("DELETE FROM `mailboxes` WHERE `id`=?", (self._mailbox_id,))
+        if self._usage_db:
+            self._app._summarize_mailbox_and_store(for_nameplate, side_rows,
+                                                when, pruned=False)''',
+  '''        self._delete_rows()
+        if self._usage_db:
+            self._app._summarize_mailbox_and_store(for_nameplate, side_rows,
+                                                when, pruned=False)''', "see extra")
+B("b-reply-helper", ALL, W,
+  '''        self._mailbox = None
+        self.send("closed")''',
+  '''        self._mailbox = None
+        self._reply("closed")''', "see extra")
+
 # two-site mutants (extra edits applied together with the main one)
 EXTRA = {
+    "b-old-mailboxes-list": [
+        (S, '''            else:
+                old_mailboxes.add(mailbox_id)''',
+         '''            else:
+                old_mailboxes.append(mailbox_id)''')],
+    "b-inline-json": [
+        (W, '''import time
+from twisted.internet import reactor''',
+         '''import time, json
+from twisted.internet import reactor''')],
+    "b-close-helper-method": [
+        (S, '''    def _shutdown(self):
+        # used at test shutdown to accelerate client disconnects''',
+         '''    def _delete_rows(self):
+        db = self._db
+        db.execute("DELETE FROM `messages` WHERE `mailbox_id`=?",
+                   (self._mailbox_id,))
+        db.execute("DELETE FROM `mailbox_sides` WHERE `mailbox_id`=?",
+                   (self._mailbox_id,))
+        db.execute("DELETE FROM `mailboxes` WHERE `id`=?", (self._mailbox_id,))
+
+    def _shutdown(self):
+        # used at test shutdown to accelerate client disconnects''')],
+    "b-reply-helper": [
+        (W, '''    def send(self, mtype, **kwargs):''',
+         '''    def _reply(self, mtype, **kwargs):
+        self.send(mtype, **kwargs)
+
+    def send(self, mtype, **kwargs):''')],
     "c11-released-names-global": [
         (S, '''        db.execute("UPDATE `nameplate_sides` SET `claimed`=?"
                    " WHERE `nameplates_id`=? AND `side`=?",
